@@ -294,6 +294,12 @@ func (d *Datastore) lowlevelTransactionSet(ctx context.Context, transaction *typ
 		result.Delete = append(result.Delete, p)
 	}
 
+	// The cache reads this result was computed from end silently when the context is done. Do not report,
+	// let alone push to the device, what a cancelled or expired request context may have left incomplete.
+	if err := ctx.Err(); err != nil {
+		return nil, err
+	}
+
 	// Error out if validation failed.
 	if validationResult.HasErrors() {
 		return result, nil
